@@ -8,6 +8,7 @@ import (
 	"context"
 	"crypto/rsa"
 	"encoding/xml"
+	"errors"
 	"fmt"
 	"log"
 	"net"
@@ -295,10 +296,6 @@ func (s *Server) Close() error {
 	return s.cb.Close()
 }
 
-type temporary interface {
-	Temporary() bool
-}
-
 func (s *Server) acceptAndRegister(ctx context.Context, l *uacp.Listener) {
 	for {
 		select {
@@ -307,23 +304,20 @@ func (s *Server) acceptAndRegister(ctx context.Context, l *uacp.Listener) {
 		default:
 			c, err := l.Accept(ctx)
 			if err != nil {
-				switch x := err.(type) {
-				case *net.OpError:
-					// socket closed. Cannot recover from this.
+				// Accept also performs the handshake with the new client, so most
+				// errors (a client that resets the connection or sends garbage
+				// instead of a Hello) concern that one client only.
+				// Only a closed listener ends the loop.
+				if errors.Is(err, net.ErrClosed) {
 					if s.cfg.logger != nil {
 						s.cfg.logger.Error("socket closed: %s", err)
 					}
 					return
-				case temporary:
-					if x.Temporary() {
-						continue
-					}
-				default:
-					if s.cfg.logger != nil {
-						s.cfg.logger.Error("error accepting connection: %s", err)
-					}
-					continue
 				}
+				if s.cfg.logger != nil {
+					s.cfg.logger.Error("error accepting connection: %s", err)
+				}
+				continue
 			}
 
 			go s.cb.RegisterConn(ctx, c, s.cfg.certificate, s.cfg.privateKey)
